@@ -137,9 +137,7 @@ let judge op args got =
         else begin
           let known_tag =
             if Zar.sign sg = 0 then None
-            else if known_unlimited md p then Some "float_unlimited_precision_panic"
             else if known_oddbase b md p then Some "float_odd_base_half_ulp"
-            else if known_halfeven md p then Some "float_halfeven_parity"
             else if known_powbase p sg then Some "float_pow_base_lower_ulp"
             else None in
           let cls = a 1 ^ (if Zar.sign p = 0 then "-p0" else if Zar.equal (Zar.abs sg) Zar.one then "-pow" else "") in
